@@ -61,6 +61,18 @@ def make (c):
             spec ['boundary'] = 'circular' if env == 'radials' else str (rng.choice (['linear', 'circular']))
         if env == 'radials':
             spec ['radials'] = [int (rng.integers (4, 120)), float (10 ** rng.uniform (-4, -2.5))]
+        rg = np.random.default_rng ([c ['seed'], 181, c ['i']])
+        if rg.random () < 0.2:
+            # a curve standing on the ground: half circle with both ends grounded (the second end is zero only up
+            # to rounding of sin (180 degrees)), or a helix rising from the plane; placed far from the rest
+            lam = gen.C_MHZ / spec ['f']
+            if rg.random () < 0.6:
+                c1 = dict (k = 'a', n = int (rg.integers (4, 10)), radius = float (lam * rg.uniform (0.05, 0.12)), a1 = 0.0, a2 = 180.0, r = float (lam * 1e-3), tag = None)
+            else:
+                c1 = dict ( k = 'h', n = int (rg.integers (6, 12)), length = float (lam * 0.15), turn = float (lam * 0.06 * rg.choice ([1, -1])), r = float (lam * 5e-4)
+                          , rx1 = float (lam * 0.02), ry1 = float (lam * 0.02), tag = None)
+            spec ['geo'].append (c1)
+            spec ['far_curve'] = True
     geo = spec ['geo']
     for i, g in enumerate (geo):
         g ['tag'] = i + 1
@@ -234,6 +246,16 @@ def check (c):
             k += 1
     if k != len (r ['wires']):
         bad ('radius', 'wire-count', '%d wires written, %d expected' % (len (r ['wires']), k))
+    # BASIC grounds a wire end only at Z = 0 exactly
+    mon ['ground-ends'] = 1
+    for k, g in enumerate (mb.geo):
+        if k >= len (r ['wires']):
+            break
+        for e, key in ((0, 'p1'), (1, 'p2')):
+            z = float (r ['wires'][k][key][2])
+            if g.is_ground [e] and z != 0.0:
+                bad ('ground-ends', 'ground-end-not-zero', 'wire %d end %d stands on the ground plane but is written with Z = %r (BASIC grounds an end only at Z = 0)' % (k + 1, e + 1, z))
+                break
     # BASIC joins identical end points only
     mon ['exact-junctions'] = 1
     ends = [tuple (w ['p1']) for w in r ['wires']] + [tuple (w ['p2']) for w in r ['wires']]
